@@ -24,6 +24,10 @@ REQUIRED_THEOREMS = [
     "wf_run", "inv_run", "new_collection_linked", "collection_layout_slots", "component_view",
     "component_write_seen_in_field", "member_write_seen_in_collection", "disjoint_forever",
     "frame_disjoint", "views_stable",
+    # clause (a) `data` is a live view; component views over histories; tensor components row-major;
+    # operator results / footprint; values of copies (with the dtype conversion)
+    "data_is_live_view", "dataLive_run", "component_alias_history", "tensor_component_view",
+    "apply_operator_footprint", "copy_reads_equal", "views_stable_run",
 ]
 RULE = ("random operation histories (5-40 operations: construction of scalar/vector/tensor fields, "
         "writes through data/_data_full/fc[k]/fc[label]/vector[c]=, marker writes of single cells, boundary-condition "
@@ -408,7 +412,8 @@ class World:
             changed[i] = {"dt": dt, "size": a.size, "contig": bool(a.flags.c_contiguous), "vals": flat,
                           "members": self.members(i) if self.cls[i] == "coll" else [],
                           "cls": self.cls[i], "grid": self.gid[i]}
-        return {"err": err, "n": n, "pairs": pairs, "dbad": dbad, "root": rootlab, "changed": changed,
+        stale = [i for i in range(n) if self.cls[i] != "raw" and not self.data_is_live(i)]
+        return {"err": err, "n": n, "pairs": pairs, "dbad": dbad, "root": rootlab, "changed": changed, "stale": stale,
                 "model_idx": len(self.model_ops) - 1, "nchanged_old": nchanged_old}
 
     # ---- monitors (direct statements of the property on the real objects) -------------------------
@@ -456,12 +461,17 @@ class World:
                               {"new": j, "new_cls": self.cls[j], "old": i, "old_cls": self.cls[i]})
                     break
 
+    def data_is_live(self, i):
+        """`obj.data` is the view of the valid cells of `obj._data_full` (same memory, shape, strides, dtype)"""
+        o = self.objs[i]
+        d, e = o.data, o._data_full[valid_idx(o.grid)]
+        return bool(addr(d) == addr(e) and d.shape == e.shape and d.strides == e.strides and d.dtype == e.dtype)
+
     def check_data_view(self):
         for i, o in enumerate(self.objs):
             if self.cls[i] == "raw":
                 continue
-            d, e = o.data, o._data_full[valid_idx(o.grid)]
-            if not (addr(d) == addr(e) and d.shape == e.shape and d.strides == e.strides and d.dtype == e.dtype):
+            if not self.data_is_live(i):
                 self.fail("data is not the live view of the valid cells of _data_full", {"handle": i, "cls": self.cls[i]})
 
     def slots(self, ci):
@@ -938,10 +948,13 @@ class World:
             res, err = self.try_real(lambda: o[key])
         else:
             a, b = d["c"] % dim, (d["c"] // dim) % dim
-            c = a * dim + b
+            c = a * dim + b     # (for the monitor: the property statement says row-major)
             key = (o.grid.axes[a], o.grid.axes[b]) if d.get("by_name") and max(a, b) < o.grid.num_axes else (a, b)
             res, err = self.try_real(lambda: o[key])
-        self.model_ops.append({"op": "component", "h": i, "c": c})
+        if self.cls[i] == "vector":
+            self.model_ops.append({"op": "component", "h": i, "c": c})
+        else:               # the model maps (i, j) to the block itself (`tensorSlot`)
+            self.model_ops.append({"op": "tcomponent", "h": i, "i": a, "j": b})
         if err is not None:
             return {"err": err}
         return {"err": None, "new": [res], "comps": [(res, i, c)]}
@@ -1229,14 +1242,17 @@ class World:
         after = np.array(self.full(i), copy=True).ravel()
         if not np.all(np.isfinite(res.data.astype(np.complex128))):
             raise Unexpected("operator result is not finite")
-        self.model_ops.append(self.ghost_op(i, before, after))
+        mop = {"op": "applyOperator", "h": i, "ghosts": self.ghost_op(i, before, after)["vals"], "cls": out_cls,
+               "out": None}
         if out is not None:
             if res is not out:
                 self.fail("apply_operator(out=f) did not return f", {})
-            self.model_ops.append({"op": "writeData", "h": self.idmap[id(out)], "vals": enc_arr(self.expand_valid(self.idmap[id(out)], res.data))})
+            mop["out"] = self.idmap[id(out)]
+            mop["vals"] = enc_arr(self.expand_valid(self.idmap[id(out)], res.data))
+            self.model_ops.append(mop)
             return {"err": None, "allowed": allowed, "write": True}
-        n = len(self.objs)
-        self.model_ops.append(self.derived_op(out_cls, self.gid[i], self.dtn(i), res))
+        mop["vals"] = self.derived_op(out_cls, self.gid[i], self.dtn(i), res)["vals"]
+        self.model_ops.append(mop)
         return {"err": None, "new": [res], "fresh": [res], "allowed": allowed}
 
     def derived_op(self, cls, g, dt, res):
@@ -1282,12 +1298,11 @@ class World:
             if err is not None:
                 raise Unexpected(f"transpose failed unexpectedly: {err}")
             if what == "transpose":
-                self.model_ops.append({"op": "copy", "h": i, "dt": None})
-                self.model_ops.append({"op": "writeData", "h": len(self.objs), "vals": enc_arr(self.expand_valid(i, res.data))})
+                self.model_ops.append({"op": "applyFn", "h": i, "out": None, "vals": enc_arr(self.expand_valid(i, res.data))})
                 return {"err": None, "new": [res], "fresh": [res]}
             if res is not o:
                 self.fail("transpose(inplace=True) did not return the field itself", {})
-            self.model_ops.append({"op": "writeData", "h": i, "vals": enc_arr(self.expand_valid(i, res.data))})
+            self.model_ops.append({"op": "applyFn", "h": i, "out": i, "vals": enc_arr(self.expand_valid(i, res.data))})
             return {"err": None, "allowed": allowed, "write": True}
         elif what in ("apply", "apply_out"):
             W, ok = wide_result("mul", self.dat(i), 2)
@@ -1297,8 +1312,7 @@ class World:
                 res, err = self.try_real(lambda: o.apply(lambda x: 2 * x))
                 if err is not None:
                     raise Unexpected(f"apply failed unexpectedly: {err}")
-                self.model_ops.append({"op": "copy", "h": i, "dt": None})
-                self.model_ops.append({"op": "writeData", "h": len(self.objs), "vals": enc_arr(self.expand_valid(i, res.data))})
+                self.model_ops.append({"op": "applyFn", "h": i, "out": None, "vals": enc_arr(self.expand_valid(i, res.data))})
                 return {"err": None, "new": [res], "fresh": [res]}
             j = self.rid(d["out"])
             if self.cls[j] != self.cls[i] or self.gid[j] != g or KIND.get(self.dtn(j), -1) < KIND[self.dtn(i)]:
@@ -1310,7 +1324,7 @@ class World:
                 raise Unexpected(f"apply(out=) failed unexpectedly: {err}")
             if res is not out:
                 self.fail("apply(out=f) did not return f", {})
-            self.model_ops.append({"op": "writeData", "h": j, "vals": enc_arr(self.expand_valid(j, res.data))})
+            self.model_ops.append({"op": "applyFn", "h": i, "out": j, "vals": enc_arr(self.expand_valid(j, res.data))})
             return {"err": None, "allowed": allowed, "write": True}
         else:
             raise Skip()
@@ -1319,7 +1333,8 @@ class World:
         if not np.all(np.isfinite(res.data.astype(np.complex128))):
             raise Unexpected("derived result is not finite")
         # `cls(grid, data)` without dtype: the dtype is re-derived from the data (number_array)
-        self.model_ops.append(self.derived_op(spec[0], g, None, res))
+        dop = self.derived_op(spec[0], g, None, res)
+        self.model_ops.append({"op": "derive", "h": i, "cls": spec[0], "cplx": dop["cplx"], "vals": dop["vals"]})
         return {"err": None, "new": [res], "fresh": [res]}
 
     def op_storage(self, d):
@@ -1890,6 +1905,9 @@ def compare(w, answer):
         if rec["dbad"]:
             return {"step": t, "what": "`data` arrays do not share memory although `_data_full` arrays do",
                     "model": None, "impl": rec["dbad"]}
+        if sorted(m.get("stale") or []) != rec["stale"]:
+            return {"step": t, "what": f"objects whose `data` is not a view of their current `_data_full` after {opname}",
+                    "model": sorted(m.get("stale") or []), "impl": rec["stale"]}
         extra = sorted(set(rec["changed"]) - set(ch))
         if extra:
             return {"step": t, "what": f"handles whose memory/values changed in the real code but not in the model after {opname}",
